@@ -56,7 +56,8 @@ TABLE = {
                      'and that the projected state, JSON export and transform(training frame) are unchanged.'),
 }
 ALSO = {   # clauses of other kinds that also belong to a property (same traces, different driver)
-    'C17': ['C17_reload_differs'],
+    # after an edit, transform / summary / reload must keep agreeing: their clauses in the c17 histories belong to C17
+    'C17': ['C17_reload_differs', 'C16_summary', 'C04_label', 'C06_summary_differs', 'C06_json_not_idempotent'],
     'C19': ['C19_transform_changed'],
     'C07': ['C07_fit_transform_differs', 'C07_repeat_differs'],
     'C06': ['C06_behaviour'],
